@@ -42,21 +42,26 @@ Theorem c36_expr_exact_outside : forall e env v t,
 Proof. exact expr_exact_orig_outside. Qed.
 Print Assumptions c36_expr_exact_outside.
 
-(* ---- conditions: comparison, and/or with short-circuit ---- *)
+(* ---- conditions: comparisons and n-ary and/or chains (BoolOp with a list of operands, as
+   CPython parses `a and b and c`), arbitrarily nested, short-circuit ---- *)
 Theorem c36_cond_exact : forall c env bv t,
   evalc64 env c = Some bv -> lower_cond lowcfg_cur c CYes CNo = Some t ->
   eval_ctree env t = ODone bv.
 Proof. exact cond_exact_cur. Qed.
 Print Assumptions c36_cond_exact.
 
-Theorem c36_and_skips : forall a b env t,
-  evalc64 env a = Some false -> lower_cond lowcfg_cur (PAnd a b) CYes CNo = Some t ->
+(* n-ary chains (ast.BoolOp values = pre ++ a :: post): once an operand decides, the operands
+   after it are neither evaluated nor able to change the outcome *)
+Theorem c36_and_skips : forall pre a post env t,
+  Forall (fun c => evalc64 env c = Some true) pre -> evalc64 env a = Some false ->
+  lower_cond lowcfg_cur (PBoolOp true (pre ++ a :: post)) CYes CNo = Some t ->
   eval_ctree env t = ODone false.
 Proof. exact and_skips_cur. Qed.
 Print Assumptions c36_and_skips.
 
-Theorem c36_or_skips : forall a b env t,
-  evalc64 env a = Some true -> lower_cond lowcfg_cur (POr a b) CYes CNo = Some t ->
+Theorem c36_or_skips : forall pre a post env t,
+  Forall (fun c => evalc64 env c = Some false) pre -> evalc64 env a = Some true ->
+  lower_cond lowcfg_cur (PBoolOp false (pre ++ a :: post)) CYes CNo = Some t ->
   eval_ctree env t = ODone true.
 Proof. exact or_skips_cur. Qed.
 Print Assumptions c36_or_skips.
@@ -105,7 +110,8 @@ Example c36_nonvacuous :
   let e := PBin PFloorDiv (PBin PSub (PVar 0) (PConst 7)) (PVar 1) in
   eval64 [0; 2] e = Some (-4) /\
   (exists t, lower lowcfg_cur e = Some t /\ eval_tree [0; 2] t = ODone (-4)) /\
-  evalc64 [0; 2] (PAnd (PCmp PLt (PVar 1) (PVar 0)) (PCmp PEq (PBin PFloorDiv (PVar 1) (PVar 0)) (PConst 0)))
+  evalc64 [0; 2] (PBoolOp true [PCmp PLt (PVar 0) (PVar 1); PCmp PLt (PVar 1) (PVar 0);
+                                 PCmp PEq (PBin PFloorDiv (PVar 1) (PVar 0)) (PConst 0)])
     = Some false /\
   run_for_loop (gen_for for_variant_cur false) for_loopvar_cur
     (fun i => if i =? 1 then Cont else if i =? 3 then Brk else Fall) 0 6 10 = FDone [0; 1; 2; 3] (Some 3).
